@@ -15,10 +15,11 @@ import (
 func init() { registry["C19"] = runC19 }
 
 type c19Case struct {
-	P0, P1 float64  `json:"params"`
-	Ops    int      `json:"ops"`
-	Seed   uint64   `json:"stream"`
-	Trace  []string `json:"trace_tail,omitempty"`
+	P0    float64  `json:"param0"`
+	P1    float64  `json:"param1"`
+	Ops   int      `json:"ops"`
+	Seed  uint64   `json:"stream"`
+	Trace []string `json:"trace_tail,omitempty"`
 }
 
 func c19Structured(rng *lab.RNG) []uint64 {
